@@ -2,11 +2,14 @@
 
 ENGINES = [
     {'name': 'A-program-representation', 'path': 'sa/core',
-     'serves_properties': ['C01', 'C05', 'C07', 'C08', 'C09', 'C10', 'C11',
-                           'C12', 'C13', 'C14', 'C15', 'C17', 'C18', 'C19',
-                           'C20'],
-     'kind_free_text': 'ast loader, symbol lookup, statement CFG with '
-                       'dominators, reaching definitions, attribute-path '
+     'serves_properties': ['C01', 'C02', 'C03', 'C04', 'C05', 'C07', 'C08',
+                           'C09', 'C10', 'C11', 'C12', 'C13', 'C14', 'C15',
+                           'C17', 'C18', 'C19', 'C20'],
+     'kind_free_text': 'ast loader with canonical forms, symbol lookup, AST '
+                       'templates, statement CFG with dominators, '
+                       'post-dominators and control dependence (control '
+                       'conditions of anchored statements against a reference '
+                       'table), reaching definitions, attribute-path '
                        'effects, finite-domain evaluator for decision code'},
     {'name': 'B-stencil-abstract-interpreter', 'path': 'sa/stencil',
      'serves_properties': ['C01', 'C02', 'C03', 'C04', 'C07', 'C09'],
